@@ -112,8 +112,9 @@ R6 = [
 # generic clean-ups applied to every engine function
 CFG_STATS = R('R0.cfg_stats', r'# \[ cfg \( feature = "stats" \) \]', r'', 'cfg(feature = "stats") attribute (the baseline builds with stats on)')
 CRATE_PATH = R('R0.crate_path', r'\bcrate :: (MemoryEstimator|CacheEntry|EvictionPolicy|CacheStats)\b', r'\1', 'crate:: path prefix')
-SELF_MUT = R('R1.receiver', r'\( & self\b', r'(&mut self', '&self -> &mut self (the lock made the mutation legal)')
-REBORROW = R('R1.reborrow', r'& mut \( & mut (self \. @ID@) \)', r'(&mut \1)', '&mut <guard temporary> -> the &mut borrow itself')
+SELF_MUT = R('R1.receiver', r'\( & self\b(?! \.)', r'(&mut self', '&self -> &mut self (the lock made the mutation legal)')
+REBORROW = R('R1.reborrow', r'& mut \( & mut (self \. @ID@|\* @ID@) \)', r'(&mut \1)', '&mut <guard temporary> -> the &mut borrow itself')
+REBORROW_SH = R('R1.reborrow_shared', r'&(?! mut) \( & (self \. @ID@|\* @ID@) \)', r'(&\1)', '&<guard temporary> -> the & borrow itself')
 
 
 def guard_local_rules(names):
@@ -132,3 +133,103 @@ def find_guard_locals(text):
     for m in re.finditer(tokpat(r'(?:mut )?(@ID@) : & mut (?:MutexGuard|RwLockWriteGuard) <'), text):
         names.append(m.group(1))
     return sorted(set(names))
+
+
+# ---------------------------------------------------------------------------------------------
+# R3: LocalKey::with inlining
+class UnsupportedConstruct(Exception):
+    pass
+
+
+def r3_with(text, log, base_line, item_name, is_tail_stmt_fn):
+    """`self.F.with(|c| BODY)` -> BODY with c.borrow()/c.borrow_mut() -> self.F.borrow()/self.F.borrow_mut().
+    A closure `return E;` is accepted only in the two shapes DESIGN.md R3 names."""
+    from . import rustsrc
+    rx = re.compile(tokpat(r'self \. (@ID@) \. with \( \| (@ID@) \| '))
+    guard = 0
+    while True:
+        ms = list(rx.finditer(text))
+        if not ms:
+            return text
+        guard += 1
+        if guard > 200:
+            raise UnsupportedConstruct('R3 did not terminate')
+        # innermost-last: take the LAST match so that nested closures are inlined inside out
+        m = ms[-1]
+        field, param = m.group(1), m.group(2)
+        open_paren = text.index('(', m.start() + len('self'))
+        # find the '(' of with(
+        wp = text.find('with', m.start())
+        open_paren = text.index('(', wp)
+        close_paren = rustsrc.match_close(text, open_paren)
+        body = text[m.end():close_paren]
+        is_block = body.lstrip().startswith('{')
+        if is_block:
+            bopen = m.end() + (len(body) - len(body.lstrip()))
+            bclose = rustsrc.match_close(text, bopen)
+            if text[bclose + 1:close_paren].strip():
+                raise UnsupportedConstruct('R3: trailing tokens after closure block')
+            inner = text[bopen:bclose + 1]
+        else:
+            inner = '{ ' + body + ' }'
+        # closure returns
+        if re.search(r'\breturn\b', inner):
+            inner2 = _r3_return_to_else(inner)
+            if inner2 is None:
+                # `return;` inside a closure whose with-call is the tail statement of a unit function
+                after = text[close_paren + 1:]
+                if re.fullmatch(r'\s*;?\s*\}\s*', after) and re.search(r'\breturn\s*;', inner) and not re.search(r'\breturn\s+[^;]', inner):
+                    pass  # returning from the closure == returning from the function
+                else:
+                    raise UnsupportedConstruct('R3: unsupported `return` inside a LocalKey::with closure')
+            else:
+                inner = inner2
+        inner = re.sub(r'\b%s\s*\.\s*borrow_mut\s*\(\s*\)' % re.escape(param), 'self.%s.borrow_mut()' % field, inner)
+        inner = re.sub(r'\b%s\s*\.\s*borrow\s*\(\s*\)' % re.escape(param), 'self.%s.borrow()' % field, inner)
+        if re.search(r'\b%s\b' % re.escape(param), re.sub(r'"[^"]*"', '', inner)) and param not in ('o', 'c') :
+            pass
+        old = text[m.start():close_paren + 1]
+        nl = old.count('\n') - inner.count('\n')
+        log.append(dict(rule='R3.with_inline:' + field, line=base_line + text.count('\n', 0, m.start()), old=_short(old), new=_short(inner), item=item_name))
+        text = text[:m.start()] + inner + ('\n' * nl if nl > 0 else '') + text[close_paren + 1:]
+
+
+def _r3_return_to_else(block):
+    """`if C { S; return E; } T`  ->  `if C { S; E } else { T }` for the innermost if that ends with a return,
+    where T is the rest of the enclosing block. Returns None when the shape does not match."""
+    from . import rustsrc
+    m = re.search(r'\breturn\s+([^;]+);\s*\}', block)
+    if not m:
+        return None
+    ret_expr = m.group(1)
+    close_if = m.end() - 1
+    # the enclosing block of that `if`: find the `{` that this `}` closes
+    # walk back to find matching open brace
+    depth = 0
+    i = close_if
+    while i >= 0:
+        if block[i] == '}':
+            depth += 1
+        elif block[i] == '{':
+            depth -= 1
+            if depth == 0:
+                break
+        i -= 1
+    if_open = i
+    # the rest of the parent block after this if-block
+    # parent block close: first unmatched '}' after close_if
+    depth = 0
+    j = close_if + 1
+    while j < len(block):
+        if block[j] == '{':
+            depth += 1
+        elif block[j] == '}':
+            if depth == 0:
+                break
+            depth -= 1
+        j += 1
+    rest = block[close_if + 1:j]
+    if not rest.strip() or re.search(r'\breturn\b', rest):
+        return None
+    new_if_body = block[if_open:m.start()] + ret_expr + ' }'
+    return block[:if_open] + new_if_body + ' else { ' + rest.strip() + ' }' + block[j:]
